@@ -123,6 +123,13 @@ class Acc:
         lst.sort(key=lambda e: e["size"])
         del lst[MAX_VIOL_PER_KEY:]
 
+    def too_many(self, limit: int = 300) -> bool:
+        """lets a harness stop a shard early once it is clearly red (the run is then marked as capped)"""
+        if self.violation_count > limit:
+            self.cap(f"a shard stopped after more than {limit} violations")
+            return True
+        return False
+
     # -- merging -------------------------------------------------------------------
     def merge(self, o: "Acc") -> None:
         self.evaluations += o.evaluations
